@@ -24,7 +24,7 @@ type c08Apply struct {
 
 func init() {
 	register(&Prop{ID: "C08", Run: c08Run,
-		Rule: "recon: L is a generated root container in which every item of every list holds at least one scalar; R is derived from L exactly as the quantifier says: keyed subtrees deleted, new keyed subtrees (arbitrary) added under fresh keys, lists replaced by other lists, nothing else; the reconstruction predicate is evaluated only when the decidable domain predicate Compat(L,R) && ItemsHaveScalars(L) holds (it does for every generated case; it guards shrinking). empty / delabsent / single: generated documents and flatten-style paths (1-4 components, 0-2 index groups each, aimed at existing positions two times out of three). seq: 1-6 random modifications, model correspondence only. A recon case is non-trivial when Diff(L,R) is non-empty; the others always; distinct = distinct canonical case JSON (hash).",
+		Rule: "recon: L is a generated root container in which every item of every list holds at least one scalar; R is derived from L exactly as the quantifier says: keyed subtrees deleted, new keyed subtrees (arbitrary) added under fresh keys, lists replaced by other lists (unrelated ones, near misses, and copies that differ in exactly one scalar by a confusable pair: same number under another Go type, neighbouring integers beyond 2^53, a value and its printed text), nothing else; flattened views are compared as (path, Go type, text) triples; the reconstruction predicate is evaluated only when the decidable domain predicate Compat(L,R) && ItemsHaveScalars(L) holds (it does for every generated case; it guards shrinking). empty / delabsent / single: generated documents and flatten-style paths (1-4 components, 0-2 index groups each, aimed at existing positions two times out of three). seq: 1-6 random modifications, model correspondence only. A recon case is non-trivial when Diff(L,R) is non-empty; the others always; distinct = distinct canonical case JSON (hash).",
 		Assumptions: []string{"keys are non-empty over [A-Za-z0-9_-]; list indices are canonical decimals",
 			"scalars are NaN-free and -0-free",
 			"'every list item containing at least one scalar' is required of L's lists (the ones rebuilt from Adds); R's replacement lists are mostly generated the same way and sometimes arbitrary"}})
@@ -176,6 +176,40 @@ func c08Derive(r *rand.Rand, g *DocGen, l W, depth int) W {
 	return map[string]any{"m": m}
 }
 
+// c08TwinPair: L and R agree everywhere except that one list of R is a copy of L's list differing in exactly ONE
+// scalar, and only by a confusable pair (the same number under two Go types, neighbouring integers beyond 2^53,
+// a number and its printed text, ...).  "Replacing a list by another list" includes the other list that is
+// almost the same one: a Diff that decides list equality more loosely than it compares keyed scalars emits
+// nothing for it and the reconstruction keeps R's scalar.  The rest of R is derived as usual.
+func c08TwinPair(r *rand.Rand, g *DocGen) (W, W, bool) {
+	l := c08FixLists(r, g, g.Doc(r))
+	var slots, inList [][]any
+	wireLeafSlots(l, nil, &slots)
+	for _, s := range slots {
+		for _, e := range s[1:] {
+			if _, ok := e.(int); ok {
+				inList = append(inList, s)
+				break
+			}
+		}
+	}
+	if len(inList) == 0 {
+		return nil, nil, false
+	}
+	s := pick(r, inList)
+	a, b := twinPair(r)
+	l = wireSetSlot(l, s, a)
+	var rr W = deepCopyW(l)
+	if r.Intn(2) == 0 {
+		rr = c08Derive(r, g, l, 0)
+	}
+	lc, _ := wireCont(l)
+	rc, _ := wireCont(rr)
+	k := s[0].(string)
+	rc[k] = wireSetSlot(deepCopyW(lc[k]), s[1:], b)
+	return l, rr, true
+}
+
 func c08Path(r *rand.Rand, g *DocGen, d W) string {
 	var paths, lists []string
 	wirePaths(d, "", &paths, &lists)
@@ -213,6 +247,15 @@ func c08Run(c *Ctx) {
 		g := c08Gen(r)
 		l := c08FixLists(r, g, g.Doc(r))
 		c.Do("recon", c08Recon{l, c08Derive(r, g, l, 0)})
+	}
+	for i := 0; i < c.N(1200); i++ {
+		c.Tick()
+		g := c08Gen(r)
+		g.PList += 0.15
+		if l, rr, ok := c08TwinPair(r, g); ok {
+			c.Dist("recon:list-differs-by-one-confusable-scalar")
+			c.Do("recon", c08Recon{l, rr})
+		}
 	}
 	for i := 0; i < c.N(300); i++ {
 		c.Tick()
